@@ -11,6 +11,8 @@ package verifharness
 
 import (
 	"bytes"
+	"crypto/sha256"
+	"encoding/binary"
 	"encoding/json"
 	"fmt"
 	"math/big"
@@ -65,6 +67,7 @@ type pktEvmPacket struct {
 	outward bool // host -> evm (acknowledgement flow)
 	ackAt   uint64
 	acked   bool
+	class     string // value-boundary class of the stored word (lead0 | lead00 | trail0 | trail00), "" if not ground
 	ackStored bool // outward packets: the EVM chain has written the acknowledgement hash under the ack slot
 }
 
@@ -370,4 +373,106 @@ func erc20Ctor() ([]byte, error) {
 		return nil, err
 	}
 	return append(append([]byte{}, erc20Bin()...), ctorArgs...), nil
+}
+
+// ---------------------------------------------------------------------------------------------
+// value-boundary classes of the stored 32-byte word
+
+// pktWordClass: how many zero bytes the word starts / ends with (the EVM stores the word RLP-trimmed on the left only).
+func pktWordClass(h []byte) string {
+	switch {
+	case h[0] == 0 && h[1] == 0:
+		return "lead00"
+	case h[0] == 0:
+		return "lead0"
+	case h[31] == 0 && h[30] == 0:
+		return "trail00"
+	case h[31] == 0:
+		return "trail0"
+	}
+	return ""
+}
+
+// pktGrind varies the 4 low bytes of the 8-byte big-endian marker inside bz (which must occur exactly once) until the
+// sha256 of the bytes is of the wanted class; returns nil if the marker is not unique or nothing is found.
+func pktGrind(bz, marker []byte, class string, start uint32) []byte {
+	if bytes.Count(bz, marker) != 1 {
+		return nil
+	}
+	idx := bytes.Index(bz, marker)
+	out := append([]byte{}, bz...)
+	for i := uint32(0); i < 1<<22; i++ {
+		binary.BigEndian.PutUint32(out[idx+4:idx+8], start+i)
+		h := sha256.Sum256(out)
+		if pktWordClass(h[:]) == class {
+			return out
+		}
+	}
+	return nil
+}
+
+// evmGroundPacket: a packet EVM chain -> host (sequence seq) whose commitment sha256(ABIPack p) is of the given class;
+// the free field is the transfer amount. nil if grinding failed.
+func (w *pktWorld) evmGroundPacket(ev *pktEvm, seq uint64, class string, start uint32) *pktEvmPacket {
+	hostC := ev.host
+	marker := []byte{0, 0, 0, 9, 0xa7, 0x5e, 0xc1, 0x3d} // amount = 9 * 2^32 + x
+	amt := make([]byte, 32)
+	copy(amt[24:], marker)
+	td := packettypes.TransferData{Receiver: strings.ToLower(hostC.tc.SenderAddress.String()), Amount: amt,
+		Token: strings.ToLower(common.Address{}.String()), OriToken: ""}
+	tdBz, _ := td.ABIPack()
+	p := packettypes.Packet{SrcChain: ev.name, DstChain: hostC.name, Sequence: seq, Sender: strings.ToLower(hostC.tc.SenderAddress.String()),
+		TransferData: tdBz, CallData: []byte{}, CallbackAddress: common.Address{}.String(), FeeOption: 0}
+	bz0, _ := p.ABIPack()
+	bz := pktGrind(bz0, marker, class, start)
+	if bz == nil {
+		return nil
+	}
+	var dp packettypes.Packet
+	if dp.ABIDecode(bz) != nil {
+		return nil
+	}
+	if re, err := dp.ABIPack(); err != nil || !bytes.Equal(re, bz) {
+		return nil // must stay the canonical encoding: the commitment is the hash of the re-packed packet
+	}
+	return &pktEvmPacket{bz: bz, p: dp, slot: pktEvmSlot(host.PacketCommitmentKey(dp.SrcChain, dp.DstChain, dp.Sequence)), class: class}
+}
+
+// evmGroundAck: acknowledgement bytes (code, message, relayer as given; the free field is the result) whose sha256 is of
+// the given class.
+func (w *pktWorld) evmGroundAck(code uint64, message, relayer string, class string, start uint32) []byte {
+	marker := []byte{0x5a, 0x17, 0xc3, 0x09, 0xa7, 0x5e, 0xc1, 0x3d}
+	bz0, err := packettypes.NewAcknowledgement(code, marker, message, relayer, 0).ABIPack()
+	if err != nil {
+		return nil
+	}
+	bz := pktGrind(bz0, marker, class, start)
+	if bz == nil {
+		return nil
+	}
+	var a packettypes.Acknowledgement
+	if a.ABIDecode(bz) != nil {
+		return nil
+	}
+	return bz
+}
+
+// pktShift: the word a right-padding (resp. left-trimming) comparison would confuse with h:
+// h ends in k zero bytes -> 0^k ‖ h[0..32-k);  mirror: h starts with k zero bytes -> h[k..] ‖ 0^k.
+func pktShift(h []byte, mirror bool) []byte {
+	out := make([]byte, 32)
+	if !mirror {
+		k := 0
+		for k < 32 && h[31-k] == 0 {
+			k++
+		}
+		copy(out[k:], h[:32-k])
+		return out
+	}
+	k := 0
+	for k < 32 && h[k] == 0 {
+		k++
+	}
+	copy(out, h[k:])
+	return out
 }
